@@ -267,7 +267,7 @@ func GenDef(r *rand.Rand, p *Profile) Cfg {
 			case 0:
 				v = ""
 			case 1:
-				v = pick(r, []string{"true", "TRUE", "False", "fAlSe", "yes", "1"})
+				v = pick(r, []string{"true", "TRUE", "False", "fAlSe", "yes", "1", "fal\u017fe"})
 			case 2:
 				v = pick(r, numPool)
 			case 3:
